@@ -559,6 +559,7 @@ func (r *runner) checkView(c *Case, be *backend, kind, archive string, entries [
 	}
 
 	// -- every entry ---------------------------------------------------------------------------------------
+	kept := map[*entry][]byte{} // what the first ReadFile of each file returned, looked at again once every file was read
 	for _, e := range entries {
 		e := e
 		p := "/" + e.Rel
@@ -609,12 +610,29 @@ func (r *runner) checkView(c *Case, be *backend, kind, archive string, entries [
 			}
 			if n == 0 {
 				chk("first-read-differs", ok, descr)
+				if ok && err == nil {
+					kept[e] = b
+				}
 			} else {
 				if !ok {
 					bad++
 				}
 				r.rec.check(c, fam("repeated-read-differs"), entryDims(c, e), ok, api, e.Rel, descr)
 			}
+		}
+	}
+
+	// what a read returned belongs to the caller: it still holds the file's bytes after the other files were read
+	for _, e := range entries {
+		if b, ok := kept[e]; ok {
+			e := e
+			same := bytes.Equal(b, e.data())
+			if !same {
+				bad++
+			}
+			r.rec.check(c, fam("content-returned-earlier-changed-by-later-reads"), entryDims(c, e), same, "ReadFile", e.Rel, func() string {
+				return fmt.Sprintf("the %d bytes ReadFile returned for this file were its content then; after the other files of the view were read they are not any more", len(b))
+			})
 		}
 	}
 
